@@ -223,4 +223,29 @@ def balancedEvents (es : List Char) : Bool :=
 
 def obsBalanced (o : ObsRun) : Bool := o.events.all (fun e => balancedEvents e.2.toList)
 
+/-! ### property-specific projections: a property's check compares only what the property talks about,
+so that a change which keeps the property true (e.g. a different but still lazy pull pattern for C04)
+does not break the correspondence of that property. -/
+
+/-- which parts of an observed run a property compares -/
+structure Proj where
+  result : Bool := true      -- ok / error class
+  delivered : Bool := true
+  calls : Bool := false
+  events : Char → Bool := fun _ => false
+
+def projRun (pr : Proj) (o : ObsRun) : String :=
+  let evs := o.events.map (fun e => (e.1, String.ofList (e.2.toList.filter pr.events)))
+  let evs := evs.filter (fun e => !e.2.isEmpty)
+  s!"{if pr.result then o.cls else "_"} {if pr.delivered then o.delivered else "_"} | " ++
+  s!"{if pr.calls then toString o.calls else "_"} {o.pre} | " ++
+  ";".intercalate (evs.map (fun e => s!"{e.1}:{e.2}"))
+
+/-- model text to report: the observation itself when it agrees with the model under the projection
+    (the check compares the two strings), the model's own text otherwise -/
+def agreeOr (pr : Proj) (model obs : String) : String :=
+  match parseObs model, parseObs obs with
+  | some ms, some os => if ms.map (projRun pr) == os.map (projRun pr) then obs else model
+  | _, _ => model
+
 end ShpanVerif.Drive.PipeCommon
